@@ -31,6 +31,8 @@ NUMS = [0.0, -0.0, 1.0, -1.0, 7.0, 42.0, -42.0, 255.0, 256.0, 65535.0, 1e6, 1234
 # integers at and around powers of two up to the largest double (every double >= 2^53 is an integer: o/x/X must spell it exactly)
 BIG_INTS = sorted({f for k in list(range(52, 72)) + [80, 100, 127, 128, 200, 512, 1000, 1023] for b in [2.0 ** k] for f in (b, math.nextafter(b, 0.0), math.nextafter(b, math.inf))
                    if math.isfinite(f)} | {1e19, 1e20, 1.8446744073709552e19, 9.223372036854776e18, 1e100, 1.7976931348623157e308, 3.0 * 2.0 ** 62, 5.0 * 2.0 ** 61})
+DEEP_FRACTIONS = [5e-324, 1.5e-323, 2.0 ** -1074 * 3, 2.0 ** -1073, 2.0 ** -1022, 2.2250738585072009e-308, 2.0 ** -1000, 2.0 ** -800, 2.0 ** -767, 2.0 ** -768, 2.0 ** -769,
+                  1e-300, 1.2345678901234567e-250, 2.0 ** -500 + 2.0 ** -552, 2.0 ** -300, 1 + 2.0 ** -52, 0.1, 1e-20, 3.0 * 2.0 ** -1000, 1.7976931348623157e308]
 TIES = [k + 0.5 for k in range(-6, 12)] + [k / 8 for k in range(-9, 20)] + [0.25, 0.75, 1.25, 0.125, 0.375, 0.625, 2.125, 1e15 + 0.5, 4503599627370496.5,
         0.05, 0.15, 0.45, 1.45, 2.675, 1.005, 1234.5, 12345.5, 0.0625, 0.03125, 99.5, 999.5, 9999.5, 9.5, -9.5, -99.5, -0.5, -0.25, -0.75]
 STRS = ["", "a", "abc", "é", "ééé", "中文", "\U0001f600x", "á", "%", "x y", "tab\t", "ß"]
@@ -62,6 +64,10 @@ def directive(draw):
         val = draw(st.one_of(st.sampled_from(STRS), V.typed_values(max_leaves=4)))
     else:
         val = None
+    if conv in FLOAT_CONVS + G_CONVS and draw(st.integers(0, 7)) == 0:
+        # digits far behind the point: the exact binary expansion of a double has up to 1074 fractional digits (767 significant)
+        p = draw(st.sampled_from([300, 400, 700, 766, 767, 768, 769, 800, 1000, 1073, 1074, 1075, 1100]))
+        val = {"n": V.f2h(draw(st.sampled_from(DEEP_FRACTIONS)) * draw(st.sampled_from([1.0, -1.0])))}
     wv = draw(st.integers(0, 30)) if w == "*" else None
     pv = draw(st.one_of(st.integers(0, 3), st.integers(0, 25))) if p == "*" else None
     return {"flags": flags, "w": w, "p": p, "lm": lm, "conv": conv, "val": val, "wv": wv, "pv": pv}
